@@ -53,6 +53,11 @@ pub enum FeR {
     /// PRODUCT sits just below 2^127 (which = 0) or 2^128 (which = 1): a_i = a | 2^63, a_j = (2^127 or 2^128 - 1 - d) / a_i.
     /// Doubled cross products and column sums of a schoolbook / Comba multiplication overflow exactly there.
     MontProductEdge { a: u64, i: u8, j: u8, which: u8, d: u8, rest: Vec<u64> },
+    /// limbs that TIE with a reference constant (0: p, 1: (p-1)/2, 2: R = 2^(64 n) mod p) in the top `ties` limbs; the
+    /// next limb is all-ones / zero / the reference limb -1 / +1 / from `low` (kind 0..=4), the lower limbs come from
+    /// `low`. With `mont` the limbs are the internal Montgomery form (value = limbs * R^-1), otherwise the canonical
+    /// integer. Multi-limb comparisons and borrow chains against a constant are decided exactly in such values.
+    TieWith { reference: u8, mont: bool, ties: u8, kind: u8, low: Vec<u64> },
     /// the negative of the inner element (used for related components: (a, -a) in Fq2)
     NegOf(Box<FeR>),
     /// p - 1 - k for k up to 255
@@ -136,6 +141,35 @@ impl FeR {
                 let rinv = r.modpow(&(p - Z::from(2u32)), p);
                 (m * rinv) % p
             }
+            FeR::TieWith { reference, mont, ties, kind, low } => {
+                let refv: Z = match reference % 3 {
+                    0 => p.clone(),
+                    1 => (p - &one) >> 1,
+                    _ => (Z::one() << (64 * nlimbs)) % p,
+                };
+                let rl = crate::adapt::z_to_limbs(&refv, nlimbs);
+                let ties = 1 + (*ties as usize % (nlimbs - 1));
+                let mut limbs: Vec<u64> = (0..nlimbs).map(|k| low.get(k).copied().unwrap_or(0x9e37_79b9_7f4a_7c15u64.wrapping_mul(k as u64 + 1))).collect();
+                for k in 0..ties {
+                    limbs[nlimbs - 1 - k] = rl[nlimbs - 1 - k];
+                }
+                let nx = nlimbs - 1 - ties;
+                limbs[nx] = match kind % 5 {
+                    0 => u64::MAX,
+                    1 => 0,
+                    2 => rl[nx].wrapping_sub(1),
+                    3 => rl[nx].wrapping_add(1),
+                    _ => limbs[nx],
+                };
+                let m = crate::adapt::limbs_to_z(&limbs) % p;
+                if *mont {
+                    let r = (Z::one() << (64 * nlimbs)) % p;
+                    let rinv = r.modpow(&(p - Z::from(2u32)), p);
+                    (m * rinv) % p
+                } else {
+                    m
+                }
+            }
             FeR::NegOf(inner) => {
                 let v = inner.build(p, nlimbs);
                 if v.is_zero() { v } else { p - v }
@@ -179,6 +213,7 @@ impl FeR {
             FeR::Small(_) | FeR::Two => "small",
             FeR::MontPattern(_) => "montgomery-limb-pattern",
             FeR::LimbCombo(_, _, _) => "canonical-limb-combination",
+            FeR::TieWith { .. } => "limbs-tie-with-a-constant",
             FeR::MontProductEdge { .. } => "montgomery-limb-product-edge",
             _ => "boundary",
         }
@@ -232,6 +267,7 @@ pub fn fe_strategy(nlimbs: usize) -> BoxedStrategy<FeR> {
         4 => proptest::collection::vec(0u8..4, nlimbs).prop_map(FeR::MontPattern),
         4 => proptest::collection::vec(prop_oneof![1 => 0u8..4, 2 => 4u8..8], nlimbs).prop_map(FeR::MontPattern),
         3 => limb_combo_strategy(nlimbs),
+        4 => (0u8..3, any::<bool>(), 0u8..5, 0u8..5, proptest::collection::vec(any::<u64>(), nlimbs)).prop_map(|(reference, mont, ties, kind, low)| FeR::TieWith { reference, mont, ties, kind, low }),
         3 => (any::<u64>(), any::<u8>(), any::<u8>(), 0u8..2, 0u8..4, proptest::collection::vec(any::<u64>(), nlimbs)).prop_map(|(a, i, j, which, d, rest)| FeR::MontProductEdge { a, i, j, which, d, rest }),
         14 => proptest::collection::vec(any::<u64>(), nlimbs).prop_map(FeR::Limbs),
     ]
@@ -706,6 +742,9 @@ pub enum PointR {
     /// patterns ...; such points are almost never in the subgroup, so they exercise the unchecked decoders,
     /// the encoders and the group law.)
     XStructured(FeR, FeR, bool),
+    /// a point of the full curve group whose Y-coordinate is structured: y = (c0, c1) from the structured generator
+    /// (G1: c0 only), stepped by +1 until y^2 - b is a cube; x = a cube root, multiplied by beta^k
+    YStructured(FeR, FeR, u8),
     /// a SUBGROUP point [k]G with a coordinate in a numerically special band (leading 32 / 16 bits equal to those of
     /// the modulus, 32 / 24 leading zero bits), from the list found by search (corpus/banded-points.json); index
     Banded(u16),
@@ -778,6 +817,24 @@ impl PointR {
                     v[(*i as usize * v.len()) >> 16].1.clone()
                 }
             }
+            PointR::YStructured(c0, c1, k) => {
+                let one = <G::F as Fld>::one();
+                let mut y = <G::F as SqrtFld>::from_fq_pair(&c0.fq(), &c1.fq());
+                let mut found = None;
+                for _ in 0..64 {
+                    if let Some(x) = y.sqr().sub(&c.b).cube_root() {
+                        let beta = beta_in::<G::F>();
+                        let mut x = x;
+                        for _ in 0..(*k % 3) {
+                            x = x.mul(&beta);
+                        }
+                        found = Some(Pt::Aff(x, y.clone()));
+                        break;
+                    }
+                    y = y.add(&one);
+                }
+                found.unwrap_or_else(|| G::gen())
+            }
             PointR::XStructured(c0, c1, neg) => {
                 let one = <G::F as Fld>::one();
                 let mut x = <G::F as SqrtFld>::from_fq_pair(&c0.fq(), &c1.fq());
@@ -809,7 +866,7 @@ impl PointR {
     pub fn in_subgroup(&self) -> bool {
         match self {
             PointR::Identity | PointR::Gen | PointR::SmallMult(_) | PointR::Sub(_) | PointR::Banded(_) => true,
-            PointR::Full(_) | PointR::SmallOrder(_, _) | PointR::Mixed(_, _, _) | PointR::Special(_) | PointR::XStructured(_, _, _) => false,
+            PointR::Full(_) | PointR::SmallOrder(_, _) | PointR::Mixed(_, _, _) | PointR::Special(_) | PointR::XStructured(_, _, _) | PointR::YStructured(_, _, _) => false,
             PointR::Neg(i) => i.in_subgroup(),
             // x -> beta x is the GLV endomorphism on E(Fq) and on E'(Fq2): it preserves the subgroup
             PointR::Beta(i, _) => i.in_subgroup(),
@@ -827,6 +884,7 @@ impl PointR {
             PointR::Beta(_, _) => "pt-same-y",
             PointR::Special(_) => "pt-structured-coordinate",
             PointR::XStructured(_, _, _) => "pt-structured-x",
+            PointR::YStructured(_, _, _) => "pt-structured-y",
             PointR::Banded(_) => "pt-subgroup-with-banded-coordinate",
         }
     }
@@ -844,6 +902,17 @@ fn x_structured_fe() -> BoxedStrategy<FeR> {
     .boxed()
 }
 
+/// structured values for an ordinate: the field generator plus canonical values that tie with (p-1)/2 (the sort-flag
+/// threshold) or with p in their upper limbs
+fn y_structured_fe() -> BoxedStrategy<FeR> {
+    prop_oneof![
+        3 => fq_strategy(),
+        4 => (prop_oneof![3 => Just(1u8), 1 => Just(0u8)], 0u8..5, 0u8..5, proptest::collection::vec(any::<u64>(), 6)).prop_map(|(reference, ties, kind, low)| FeR::TieWith { reference, mont: false, ties, kind, low }),
+        1 => (0u8..4).prop_map(FeR::Half),
+    ]
+    .boxed()
+}
+
 fn point_leaf(any_curve_point: bool) -> BoxedStrategy<PointR> {
     if any_curve_point {
         prop_oneof![
@@ -857,6 +926,7 @@ fn point_leaf(any_curve_point: bool) -> BoxedStrategy<PointR> {
             2 => (0u8..16).prop_map(PointR::Special),
             4 => (x_structured_fe(), prop_oneof![2 => Just(FeR::Zero), 2 => x_structured_fe(), 1 => fq_uniformish()], any::<bool>()).prop_map(|(a, b, n)| PointR::XStructured(a, b, n)),
             3 => any::<u16>().prop_map(PointR::Banded),
+            3 => (y_structured_fe(), prop_oneof![2 => Just(FeR::Zero), 1 => y_structured_fe()], 0u8..3).prop_map(|(a, b, k)| PointR::YStructured(a, b, k)),
         ]
         .boxed()
     } else {
